@@ -433,173 +433,4 @@ def stepX (s : State) : OpX → State × Reply
 
 def runX (s : State) (ops : List OpX) : State := ops.foldl (fun st o => (stepX st o).1) s
 
-/-! ### monitor: observations only
-
-  A `Snap` is what the harness reads back after an operation (lease table, pool, both QoS directions and the
-  manager's count, NAT table + kernel map + count, the four cache maps' keys, the accounting records).  The monitor
-  compares the snapshot before and after an operation; it never looks at the model. -/
-
-structure Snap where
-  now    : Nat := 0
-  leases : List (Nat × Nat × Nat × Option Nat) := []   -- mac, ip, expiry, circuit-id
-  bound  : List (Nat × Nat) := []                      -- pool.allocated: mac, ip
-  free   : List Nat := []
-  unavail : List Nat := []
-  qos    : List Nat := []        -- union of egress / ingress keys
-  nat    : List Nat := []        -- union of manager table / subscriber_nat keys
-  kMac   : List Nat := []
-  kVlan  : List String := []
-  kCid   : List (Nat × Nat) := []
-  kHash  : List (Nat × Nat) := []
-  acct   : List (Nat × Nat × Nat × Nat) := []          -- ordinal, mac, starts, stops
-  early  : List Nat := []                              -- sessions whose Stop arrived before their Start
-  idx    : List ((Nat × Nat) × Nat) := []              -- leasesByCircuitID: (mac, circuit-id) → address of the lease it points to
-  /-- the three views of a resource disagree (egress ≠ ingress, manager table ≠ kernel map, count ≠ keys) -/
-  skew   : List String := []
-  deriving Repr, DecidableEq
-
-/-- what the operation that produced the snapshot was meant to end, as far as the monitor needs to know -/
-structure Kind where
-  /-- RELEASE (`none`) / DECLINE (`some address`) messages that are part of the operation: MAC, declined address -/
-  terms : List (Nat × Option Nat) := []
-  /-- a cleanup pass is part of the operation: every lease that had run out is ended -/
-  sweep : Bool := false
-  shutdown : Bool := false
-  /-- the operation is a REQUEST with terminations inside its unlock window (`estgap`) that was ACKed: the session
-      (MAC, address) it establishes, or renews, is there for the terminations to end -/
-  established : Option (Nat × Nat) := none
-  /-- MACs whose lease (in the snapshot before the operation, or created by it) was made from a STALE circuit-id index
-      entry: the slow path took a dead lease that `leasesByCircuitID` still held for the client's lease and "renewed"
-      it (finding KF-dhcp4-stale-index-revival; the driver knows it from `staleHit` on the model) -/
-  revived : List Nat := []
-  deriving Repr, DecidableEq
-
-def Kind.isTermination (k : Kind) : Bool := !k.terms.isEmpty || k.sweep || k.shutdown
-
-def Snap.leaseOf (p : Snap) (mac : Nat) : Option (Nat × Nat × Option Nat) :=
-  (p.leases.find? (fun e => e.1 == mac)).map (fun e => e.2)
-
-def Snap.live (p : Snap) (ip : Nat) : Bool := p.leases.any (fun e => e.2.1 == ip)
-
-def Snap.binds (p : Snap) (mac : Nat) : Bool := p.bound.any (fun b => b.1 == mac)
-
-/-- entries no lease of the snapshot accounts for (`dead`: every session counts as ended, as after a shutdown) -/
-def Snap.orphanNat (p : Snap) (dead : Bool) : List Nat := p.nat.filter fun a => dead || !(p.live a)
-def Snap.orphanQos (p : Snap) (dead : Bool) : List Nat := p.qos.filter fun a => dead || !(p.live a)
-def Snap.orphanMac (p : Snap) (dead : Bool) : List Nat := p.kMac.filter fun m => dead || (p.leaseOf m).isNone
-def Snap.hasCid (p : Snap) (c : Nat × Nat) : Bool := p.leases.any fun e => e.1 == c.1 && e.2.2.2 == some c.2
-def Snap.orphanCid (p : Snap) (dead : Bool) : List (Nat × Nat) := p.kCid.filter fun c => dead || !(p.hasCid c)
-def Snap.orphanHash (p : Snap) (dead : Bool) : List (Nat × Nat) := p.kHash.filter fun c => dead || !(p.hasCid c)
-def Snap.orphanIdx (p : Snap) (dead : Bool) : List (Nat × Nat) := (p.idx.map (·.1)).filter fun c => dead || !(p.hasCid c)
-
-/-- the sessions an operation is meant to end, judged from the snapshot BEFORE it: (mac, ip, path) -/
-def ended (before : Snap) (k : Kind) : List (Nat × Nat × String) :=
-  if k.shutdown then before.leases.map fun (m, ip, _, _) => (m, ip, "shutdown") else
-  -- a session the operation itself establishes (or renews) before its terminations run counts as there
-  let leases := match k.established with
-    | some (m, ip) => (m, ip, before.now, none) :: before.leases.filter (fun e => !(e.1 == m))
-    | none => before.leases
-  let byMsg := leases.filterMap fun (m, ip, _, _) =>
-    if k.terms.any (fun t => t.1 == m && t.2.isNone) then some (m, ip, "RELEASE")
-    else if k.terms.any (fun t => t.1 == m && t.2 == some ip) then some (m, ip, "DECLINE")   -- only the held address
-    else none
-  let byTime := if k.sweep then
-      leases.filterMap fun (m, ip, exp, _) => if before.now > exp then some (m, ip, "expiry") else none
-    else []
-  byMsg ++ byTime.filter (fun e => !(byMsg.any (fun b => b.1 == e.1)))
-
-/-- the clause of finding KF-dhcp4-offer-pinned (C02): the termination was aimed at a MAC that holds a pool binding
-    and has no lease (DISCOVER was never followed by an ACK) -/
-def offerOnly (before : Snap) (mac : Nat) : Bool := (before.leaseOf mac).isNone && before.binds mac
-
-/-- verdicts `(name, clause, detail)` for one operation; `clause` is "none" or the id of the recorded finding whose
-    mechanism-specific clause holds on these two snapshots -/
-def monitor (before after : Snap) (k : Kind) : List (String × String × String) :=
-  let es := ended before k
-  -- KF-dhcp4-establish-race: THIS operation is a REQUEST that was ACKed and whose own inner termination ended the
-  -- requesting MAC's session (it is among the ended sessions and has no lease afterwards); the clause covers what that
-  -- mechanism leaves behind, at this operation, for that MAC / its address - nothing later, nothing about accounting
-  -- counts
-  let lost := fun (m : Nat) => match k.established with
-    | some (em, _) => em == m && es.any (fun e => e.1 == m) && (after.leaseOf m).isNone
-    | none => false
-  let clFor := fun (name : String) (m : Nat) =>
-    if k.shutdown then
-      -- KF-dhcp4-shutdown-residue: what the sessions that were live at the shutdown keep
-      if ["addr-not-returned", "nat-residue", "qos-residue", "cache-residue", "missing-stop"].contains name
-      then "KF-dhcp4-shutdown-residue" else "none"
-    else if lost m && ["nat-residue", "qos-residue", "cache-residue", "index-residue", "stop-unstarted"].contains name then
-      "KF-dhcp4-establish-race"
-    -- KF-dhcp4-stale-index-revival: the lease of this MAC was made from a stale index entry (no pool binding of its
-    -- own, the session id of the dead lease): when it ends, the old session gets a second Stop and the pool binding
-    -- the client really has is not the one that is released
-    else if k.revived.contains m && ["double-stop", "addr-not-returned"].contains name then
-      "KF-dhcp4-stale-index-revival"
-    else "none"
-  let vEnd := es.foldl (fun acc (m, ip, path) =>
-    acc ++
-    (if (after.leaseOf m).isSome || after.binds m then
-       [("addr-not-returned", clFor "addr-not-returned" m, s!"after {path} m{m} still holds a{ip} (lease or pool binding)")]
-     else if !(after.free.contains ip) && !(after.unavail.contains ip) then
-       [("addr-not-returned", clFor "addr-not-returned" m, s!"after {path} of m{m} the address a{ip} is neither free nor quarantined")]
-     else []) ++
-    -- accounting: a session of this MAC that was open before (a Start, no Stop) must now have its Stop
-    ((before.acct.filter (fun (_, am, st, sp) => am == m && st > 0 && sp == 0)).foldl (fun a2 (o, _, _, _) =>
-       match after.acct.find? (fun r => r.1 == o) with
-       | some (_, _, _, sp) =>
-         if sp == 0 then a2 ++ [("missing-stop", clFor "missing-stop" m, s!"after {path} of m{m} session {o} has a Start and no Accounting-Stop")]
-         else a2
-       | none => a2 ++ [("missing-stop", clFor "missing-stop" m, s!"the records of session {o} vanished")]) [])) []
-  -- whatever the operation: an entry that no lease accounts for any more (or never did) and that was not already an
-  -- orphan before the operation is residue of this operation; after a shutdown every session counts as ended
-  let pathOf := fun (m : Nat) => match es.find? (fun e => e.1 == m) with
-    | some e => s!"after {e.2.2} of m{m}"
-    | none => s!"m{m}"
-  let ownerOf := fun (ip : Nat) => match before.leases.find? (fun e => e.2.1 == ip) with
-    | some e => e.1
-    | none => match k.established with
-      | some (em, eip) => if eip == ip then em else 0
-      | none => 0
-  let vNat := (after.orphanNat k.shutdown).foldl (fun acc a =>
-    if (before.orphanNat false).contains a then acc else
-      acc ++ [("nat-residue", clFor "nat-residue" (ownerOf a), s!"{pathOf (ownerOf a)}: the NAT block of a{a} is allocated and no lease holds a{a}")]) []
-  let vQos := (after.orphanQos k.shutdown).foldl (fun acc a =>
-    if (before.orphanQos false).contains a then acc else
-      acc ++ [("qos-residue", clFor "qos-residue" (ownerOf a), s!"{pathOf (ownerOf a)}: the QoS policy of a{a} is installed and no lease holds a{a}")]) []
-  let vMac := (after.orphanMac k.shutdown).foldl (fun acc m =>
-    if (before.orphanMac false).contains m then acc else
-      acc ++ [("cache-residue", clFor "cache-residue" m, s!"mac: {pathOf m}: subscriber_pools answers for m{m}, which has no lease")]) []
-  let vCid := (after.orphanCid k.shutdown).foldl (fun acc c =>
-    if (before.orphanCid false).contains c then acc else
-      acc ++ [("cache-residue", clFor "cache-residue" c.1, s!"circuit: {pathOf c.1}: circuit_id_subscribers answers for m{c.1}.c{c.2}, which is not the circuit-id of a lease of m{c.1}")]) []
-  let vHash := (after.orphanHash k.shutdown).foldl (fun acc c =>
-    if (before.orphanHash false).contains c then acc else
-      acc ++ [("cache-residue", clFor "cache-residue" c.1, s!"circuit: {pathOf c.1}: circuit_id_map answers for m{c.1}.c{c.2}, which is not the circuit-id of a lease of m{c.1}")]) []
-  -- (the index is part of the Server object and goes with it: a shutdown does not make its entries residue)
-  let vIdx := (after.orphanIdx false).foldl (fun acc c =>
-    if (before.orphanIdx false).contains c then acc else
-      acc ++ [("index-residue", clFor "index-residue" c.1, s!"{pathOf c.1}: leasesByCircuitID answers for m{c.1}.c{c.2} with a lease that is not in the lease table")]) []
-  -- the server never writes the VLAN map, no session gets a second Stop or a Stop without a Start
-  let vVlan := if after.kVlan.isEmpty then [] else
-    [("cache-residue", "none", s!"vlan: vlan_subscriber_pools has entries {after.kVlan}")]
-  let vAcct := after.acct.foldl (fun acc (o, m, st, sp) =>
-    let was := ((before.acct.find? (fun r => r.1 == o)).map (fun r => r.2.2.2)).getD 0
-    acc ++
-    (if sp > 1 && sp > was then [("double-stop", clFor "double-stop" m, s!"session {o} of m{m} has {sp} Accounting-Stops")] else []) ++
-    (if sp > 0 && st == 0 && sp > was then [("stop-unstarted", "none", s!"session {o} of m{m} has an Accounting-Stop and no Start")] else []) ++
-    (if after.early.contains o && !(before.early.contains o) then
-       [("stop-unstarted", clFor "stop-unstarted" m, s!"the Accounting-Stop of session {o} of m{m} was issued before its Start: the session stays open at the RADIUS server")] else [])) []
-  -- a termination that finds no session to end (the MAC has no lease any more, nothing has expired): nothing may change
-  let vSecond :=
-    if k.isTermination && k.established.isNone && es.isEmpty && ({ after with now := 0 } != { before with now := 0 }) then
-      [("second-end-effect", "none", "a termination that had no session to end changed the state")]
-    else []
-  -- the offer-only prefix: a RELEASE/DECLINE from a MAC that holds a pool binding and no lease
-  let vOffer := (k.terms.map (·.1)).eraseDups.foldl (fun acc m =>
-    if offerOnly before m && after.binds m then
-      acc ++ [("addr-not-returned", "KF-dhcp4-offer-pinned", s!"m{m} released/declined after DISCOVER only and keeps its pool binding")]
-    else acc) []
-  let vSkew := after.skew.map fun t => ("view-skew", "none", t)
-  vEnd ++ vNat ++ vQos ++ vMac ++ vCid ++ vHash ++ vIdx ++ vVlan ++ vAcct ++ vSecond ++ vOffer ++ vSkew
-
 end Bng.DhcpTerm
